@@ -4,9 +4,11 @@ package harness
 
 import (
 	"bytes"
+	"crypto/sha256"
 	"encoding/binary"
 	"math/big"
 	"math/rand"
+	"strings"
 
 	"github.com/ethereum/go-ethereum/common"
 	"github.com/ethereum/go-ethereum/crypto"
@@ -710,6 +712,138 @@ func c08Perts() []c08Pert {
 			})
 			return true
 		}},
+		// ---- spec-violating re-encodings of a genuine proof (root-preserving wherever that is possible): the leaf /
+		// inner ops no longer have the shape the proof spec demands, the claimed value is the one the re-encoding "proves"
+		{"spec-leaf-prehash-value", "tm", func(x *c08Ctx, b *c08Base, r *rand.Rand) bool { // Value := sha256(V), prehash_value NO_HASH: same leaf pre-image
+			var nv []byte
+			b.In.Proof = x.tmEdit(b.In.Proof, func(mp *commitmenttypes.MerkleProof) {
+				ex := mp.Proofs[0].GetExist()
+				h := sha256.Sum256(ex.Value)
+				ex.Value, ex.Leaf.PrehashValue = h[:], ics23.HashOp_NO_HASH
+				nv = h[:]
+			})
+			if b.In.Fn != "clean" {
+				b.In.Val = nv
+			}
+			return true
+		}},
+		{"spec-leaf-prehash-value-multistore", "tm", func(x *c08Ctx, b *c08Base, r *rand.Rand) bool {
+			b.In.Proof = x.tmEdit(b.In.Proof, func(mp *commitmenttypes.MerkleProof) {
+				ex := mp.Proofs[1].GetExist()
+				h := sha256.Sum256(ex.Value)
+				ex.Value, ex.Leaf.PrehashValue = h[:], ics23.HashOp_NO_HASH
+			})
+			return true
+		}},
+		{"spec-leaf-length-moved", "tm", func(x *c08Ctx, b *c08Base, r *rand.Rand) bool { // length NO_PREFIX, key length into the prefix, value := len||sha256(V)
+			var nv []byte
+			lvl := pick(r, []int{0, 0, 0, 1})
+			b.In.Proof = x.tmEdit(b.In.Proof, func(mp *commitmenttypes.MerkleProof) {
+				ex := mp.Proofs[lvl].GetExist()
+				h := sha256.Sum256(ex.Value)
+				ex.Leaf.Prefix = append(append([]byte{}, ex.Leaf.Prefix...), c08Uvarint(len(ex.Key))...)
+				ex.Leaf.Length, ex.Leaf.PrehashValue = ics23.LengthOp_NO_PREFIX, ics23.HashOp_NO_HASH
+				ex.Value = append(c08Uvarint(32), h[:]...)
+				nv = ex.Value
+			})
+			if b.In.Fn != "clean" && lvl == 0 {
+				b.In.Val = nv
+			}
+			return true
+		}},
+		{"spec-leaf-prehash-key", "tm", func(x *c08Ctx, b *c08Base, r *rand.Rand) bool { // no root-preserving form exists: the spec has NO_HASH
+			lvl := r.Intn(2)
+			b.In.Proof = x.tmEdit(b.In.Proof, func(mp *commitmenttypes.MerkleProof) {
+				mp.Proofs[lvl].GetExist().Leaf.PrehashKey = pick(r, []ics23.HashOp{ics23.HashOp_SHA256, ics23.HashOp_SHA512})
+			})
+			return true
+		}},
+		{"spec-leaf-prefix-into-key", "tm", func(x *c08Ctx, b *c08Base, r *rand.Rand) bool { // last prefix byte and the key length become part of the key
+			lvl := pick(r, []int{0, 0, 1})
+			b.In.Proof = x.tmEdit(b.In.Proof, func(mp *commitmenttypes.MerkleProof) {
+				ex := mp.Proofs[lvl].GetExist()
+				h := sha256.Sum256(ex.Value)
+				n := len(ex.Leaf.Prefix)
+				ex.Key = append(append([]byte{ex.Leaf.Prefix[n-1]}, c08Uvarint(len(ex.Key))...), ex.Key...)
+				ex.Leaf.Prefix = append([]byte{}, ex.Leaf.Prefix[:n-1]...)
+				ex.Leaf.Length, ex.Leaf.PrehashValue = ics23.LengthOp_NO_PREFIX, ics23.HashOp_NO_HASH
+				ex.Value = append(c08Uvarint(32), h[:]...)
+				if b.In.Fn != "clean" && lvl == 0 {
+					b.In.Val = ex.Value
+				}
+			})
+			return true
+		}},
+		{"spec-leaf-hash-op", "tm", func(x *c08Ctx, b *c08Base, r *rand.Rand) bool {
+			lvl := r.Intn(2)
+			b.In.Proof = x.tmEdit(b.In.Proof, func(mp *commitmenttypes.MerkleProof) {
+				mp.Proofs[lvl].GetExist().Leaf.Hash = pick(r, []ics23.HashOp{ics23.HashOp_SHA512, ics23.HashOp_RIPEMD160, ics23.HashOp_NO_HASH})
+			})
+			return true
+		}},
+		{"spec-inner-as-leaf", "tm", func(x *c08Ctx, b *c08Base, r *rand.Rand) bool { // an inner node of the genuine path presented as the leaf
+			done := false
+			b.In.Proof = x.tmEdit(b.In.Proof, func(mp *commitmenttypes.MerkleProof) {
+				ex := mp.Proofs[0].GetExist()
+				if len(ex.Path) < 2 {
+					return
+				}
+				child, err := ex.Leaf.Apply(ex.Key, ex.Value)
+				if err != nil {
+					return
+				}
+				op := ex.Path[0]
+				pre := append(append(append([]byte{}, op.Prefix...), child...), op.Suffix...)
+				k := 1 + r.Intn(len(pre)-2)
+				ex.Leaf = &ics23.LeafOp{Hash: op.Hash, PrehashKey: ics23.HashOp_NO_HASH, PrehashValue: ics23.HashOp_NO_HASH, Length: ics23.LengthOp_NO_PREFIX, Prefix: pre[:1]}
+				ex.Key, ex.Value = pre[1:k+1], pre[k+1:]
+				ex.Path = ex.Path[1:]
+				if b.In.Fn != "clean" {
+					b.In.Val = ex.Value
+				}
+				done = true
+			})
+			return done
+		}},
+		{"spec-inner-hash-op", "tm", func(x *c08Ctx, b *c08Base, r *rand.Rand) bool {
+			done := false
+			b.In.Proof = x.tmEdit(b.In.Proof, func(mp *commitmenttypes.MerkleProof) {
+				ex := mp.Proofs[r.Intn(2)].GetExist()
+				if len(ex.Path) > 0 {
+					ex.Path[r.Intn(len(ex.Path))].Hash = pick(r, []ics23.HashOp{ics23.HashOp_SHA512, ics23.HashOp_SHA512_256, ics23.HashOp_NO_HASH})
+					done = true
+				}
+			})
+			return done
+		}},
+		{"spec-inner-extra-op", "tm", func(x *c08Ctx, b *c08Base, r *rand.Rand) bool { // an op the spec's min/max prefix length forbids (an inner op always hashes: no no-op form exists)
+			b.In.Proof = x.tmEdit(b.In.Proof, func(mp *commitmenttypes.MerkleProof) {
+				ex := mp.Proofs[r.Intn(2)].GetExist()
+				extra := &ics23.InnerOp{Hash: ics23.HashOp_SHA256, Prefix: pick(r, [][]byte{nil, {1}, bytes.Repeat([]byte{2}, 60)})}
+				i := r.Intn(len(ex.Path) + 1)
+				ex.Path = append(ex.Path[:i], append([]*ics23.InnerOp{extra}, ex.Path[i:]...)...)
+			})
+			return true
+		}},
+		{"spec-inner-prefix-suffix-shift", "tm", func(x *c08Ctx, b *c08Base, r *rand.Rand) bool { // bytes moved across the child position
+			done := false
+			b.In.Proof = x.tmEdit(b.In.Proof, func(mp *commitmenttypes.MerkleProof) {
+				ex := mp.Proofs[r.Intn(2)].GetExist()
+				for _, op := range ex.Path {
+					if len(op.Suffix) > 0 && !done && r.Intn(2) == 0 {
+						op.Prefix = append(append([]byte{}, op.Prefix...), op.Suffix[0])
+						op.Suffix = op.Suffix[1:]
+						done = true
+					} else if len(op.Prefix) > 1 && !done && r.Intn(2) == 0 {
+						n := len(op.Prefix)
+						op.Suffix = append([]byte{op.Prefix[n-1]}, op.Suffix...)
+						op.Prefix = op.Prefix[:n-1]
+						done = true
+					}
+				}
+			})
+			return done
+		}},
 		// ---- tendermint client configuration
 		{"tm-specs", "tm", func(x *c08Ctx, b *c08Base, r *rand.Rand) bool {
 			b.In.Specs = pick(r, [][]int{{1, 0}, {0}, {1}, {0, 1, 1}, {0, -1}, {-1, 1}, {}, {0, 0}, {1, 1}, {2, 1}, {0, 2}})
@@ -929,8 +1063,11 @@ func c08Directed(x *c08Ctx) {
 				if !c08Applies(p, ct) {
 					continue
 				}
-				done := 0
-				for tries := 0; tries < 40 && done < reps; tries++ {
+				done, want := 0, reps
+				if strings.HasPrefix(p.Name, "spec-") {
+					want = 2 * reps
+				}
+				for tries := 0; tries < 80 && done < want; tries++ {
 					b := x.base(ct, fn, r)
 					if p.F(x, b, r) {
 						b.In.Family = p.Name
@@ -977,3 +1114,8 @@ func c08Random(x *c08Ctx, n int) {
 }
 
 var _ = bytes.Equal
+
+func c08Uvarint(n int) []byte {
+	buf := make([]byte, binary.MaxVarintLen64)
+	return buf[:binary.PutUvarint(buf, uint64(n))]
+}
